@@ -1,8 +1,11 @@
 package main
 
 import (
+	"encoding/json"
 	"fmt"
 	"go/types"
+	"os"
+	"path/filepath"
 	"sort"
 	"strings"
 
@@ -136,4 +139,118 @@ func keysOf(m map[string]string) []string {
 	}
 	sort.Strings(out)
 	return out
+}
+
+// processWideState: every package-level variable of gleece that is written after
+// initialisation, with what it is and why it cannot carry an answer from one generation (or
+// one project) to the next.
+var processWideState = map[string]string{
+	"cmd.cliArgs":                                 "command-line flags, bound by cobra; Reset() clears them between in-process invocations (tests)",
+	"cmd.dumpFormat":                              "flag of `dump`, reset by resetDumpCommand",
+	"cmd.dumpOutput":                              "flag of `dump`, reset by resetDumpCommand",
+	"cmd.gleeceConfigPath":                        "flag of `dump`, reset by resetDumpCommand",
+	"generator/routes.helpersRegistered":          "raymond's helper registry is process-wide and panics on a second registration: a once-flag for registering the same fixed helper set",
+	"generator/routes.partialsRegistered":         "as helpersRegistered, for partials; set after the partials of the run's engine were (re-)registered (C14.b guards)",
+	"generator/swagen/swagen30.schemaRefMap":      "pending $ref fix-ups of the document being built; reset at the start of every GenerateSpec (C13.c/C08 rules check the reset)",
+	"infrastructure/logger.verbosityLevel":        "log verbosity",
+	"infrastructure/validation.validatorInstance": "lazily created go-playground validator with gleece's fixed custom rules",
+}
+
+// checkProcessWideState: no other package-level variable is written at run time - in
+// particular no memo, cache, registry or once-gate that would make a generation depend on
+// what the process did before.
+func checkProcessWideState(c *Ctx, r *Report, clause string) {
+	ruleGlobalState(c, r, clause, nil, processWideState,
+		"the package-level variables written at run time are the reviewed ones; nothing else (memo, cache, seen-set, once-gate) carries over from one generation or project to the next in the same process")
+}
+
+// ---------------------------------------------------------------------------
+// Container state in struct fields
+//
+// Memos, caches, seen-sets and registries live in map / sync / channel typed fields of the
+// long-lived objects (graph, pipeline, caches, facades, visitors, tries). The set of such
+// fields is reviewed (tables/statefields.json): a new one is new state that can carry an answer
+// from one call, pass or project to the next.
+
+func (w *World) containerFields() map[string]string {
+	out := map[string]string{}
+	for _, p := range w.Pkgs {
+		if !isAnalysedPkg(p.PkgPath) {
+			continue
+		}
+		scope := p.Types.Scope()
+		for _, nm := range scope.Names() {
+			tn, ok := scope.Lookup(nm).(*types.TypeName)
+			if !ok {
+				continue
+			}
+			st, ok := tn.Type().Underlying().(*types.Struct)
+			if !ok {
+				continue
+			}
+			for i := 0; i < st.NumFields(); i++ {
+				f := st.Field(i)
+				kind := ""
+				switch u := f.Type().Underlying().(type) {
+				case *types.Map:
+					kind = "map"
+				case *types.Chan:
+					kind = "chan"
+				case *types.Struct, *types.Pointer:
+					ts := types.TypeString(f.Type(), nil)
+					if strings.HasPrefix(strings.TrimPrefix(ts, "*"), "sync.") || strings.HasPrefix(strings.TrimPrefix(ts, "*"), "sync/atomic.") {
+						kind = "sync"
+					}
+					_ = u
+				}
+				if kind == "" {
+					continue
+				}
+				out[short(p.PkgPath)+"."+tn.Name()+"."+f.Name()] = w.pos(f.Pos())
+			}
+		}
+	}
+	return out
+}
+
+func checkContainerFields(c *Ctx, r *Report, clause string) {
+	w := c.W
+	table := map[string]string{}
+	if b, err := os.ReadFile(filepath.Join(c.VerifDir, "tables", "statefields.json")); err == nil {
+		var doc struct {
+			Fields map[string]string `json:"fields"`
+		}
+		if json.Unmarshal(b, &doc) == nil {
+			table = doc.Fields
+		}
+	}
+	got := w.containerFields()
+	ks := make([]string, 0, len(got))
+	for k := range got {
+		ks = append(ks, k)
+	}
+	sort.Strings(ks)
+	viol := ""
+	var sites []string
+	for _, k := range ks {
+		sites = append(sites, got[k])
+		if _, ok := table[k]; !ok {
+			viol = fmt.Sprintf("%s: %s is a new map/sync/channel field (not in tables/statefields.json): container state that outlives a call - a memo, cache, seen-set or once-gate - can hand an answer computed for one input, pass or project to the next one", got[k], k)
+		}
+	}
+	if len(got) < 10 {
+		viol = fmt.Sprintf("only %d container fields found (floor 10): the inventory saw nothing", len(got))
+	}
+	o := r.add(clause, "whowrites", "container-state-fields", fmt.Sprintf("the %d map/sync/channel typed struct fields of gleece are the reviewed ones", len(got)), []string{"tables/statefields.json"}, sites, viol)
+	o.NonTrivial = true
+}
+
+func (w *World) dumpContainerFields() []byte {
+	got := w.containerFields()
+	out := map[string]string{}
+	for k := range got {
+		out[k] = "reviewed"
+	}
+	b, _ := json.MarshalIndent(map[string]any{"_comment": "map / sync / channel typed struct fields of gleece (container state), reviewed; see checker/globals.go", "fields": out}, "", " ")
+	return append(b, '\n')
 }
